@@ -51,6 +51,13 @@ TB_COMMON = ["rustc/cargo as installed", "libsodium 1.0.18 built from the vendor
 PROPS = {}
 
 
+
+def _simd(monitor):
+    """the monitor once more on the nightly portable-SIMD backend (tiny corpus in the quick tier, quick corpus in the
+    thorough tier): BLAKE2b-based code has a second implementation there that no stable build compiles"""
+    return lambda tier: [dict(build="ni-simd", monitor=monitor, tier=("quick" if tier == "thorough" else "tiny"))]
+
+
 def _rel(monitor):
     """the monitor once more in a plain release build (tiny corpus in the quick tier, quick corpus in the thorough tier) (no debug assertions, no overflow
     checks): code whose behaviour differs between the profiles (side effects inside debug_assert!, wrapping arithmetic)"""
@@ -93,7 +100,7 @@ PROPS["C07"] = dict(
                "digest/key length pairs and on adversarial Poly1305 operands, and each output is compared with two independent references. "
                "Exploration is the honest level: the input space is unbounded, the run samples it densely at the block boundaries.",
     level_note="Trusts libsodium 1.0.18 and the vector-pinned Python models as specifications; a disagreement between the two references is reported as inconclusive, never as a violation.",
-    runs=lambda tier: [dict(build="st", monitor="c07")] + _rel("c07")(tier),
+    runs=lambda tier: [dict(build="st", monitor="c07")] + _rel("c07")(tier) + _simd("c07")(tier),
     offline=offline.check_c07,
     models=["poly1305", "chacha20", "salsa20", "siphash"],
     floors=_c07_floors,
@@ -129,7 +136,7 @@ PROPS["C08"] = dict(
                "11 incremental interfaces, plus seeded random k-way partitions of messages up to 16 KiB; the split enumeration is exhaustive "
                "within its bounds, which reach every (buffer fill, piece class) state of the 16- and 128-byte block buffers; beyond the bounds it is sampling. A parameter-agreement family compares incremental and one-shot generic hash over key lengths {none, 0..128} x digest lengths {0..65} (accepted and refused alike) and the verification decision of incremental and one-shot MACs when the authenticator is handed over in a Vec of exact length or longer than the MAC.",
     level_note="Message contents are one seeded random string per length; the one-shot value is additionally pinned to libsodium.",
-    runs=lambda tier: [dict(build="st", monitor="c08")] + _rel("c08")(tier) + ([dict(kind="custom", fn=_MIRI("c08"))] if tier == "thorough" else []),
+    runs=lambda tier: [dict(build="st", monitor="c08")] + _rel("c08")(tier) + _simd("c08")(tier) + ([dict(kind="custom", fn=_MIRI("c08"))] if tier == "thorough" else []),
     floors=_c08_floors,
     rule="a case is one (interface, message length, partition) triple; distinct = distinct (interface, length, first cut) enumeration cells / random draws; "
          "non-trivial = at least two pieces; quick: L2=400, L3=140 (signing 150/30); thorough: L2=1100, L3=300 (signing 400/70)",
@@ -153,7 +160,7 @@ PROPS["C12"] = dict(
     level_text="Every subkey length 16..=64 and every rejected length 0..=15, 65..=80 is exercised for each cell of {key class} x {context class} x "
                "{special and random ids}; each subkey is compared with libsodium and with an independent BLAKE2b; lengths are enumerated completely, keys/ids sampled. Output buffers are handed over full of stale bytes, and the whole workload runs a second time in a plain release build (no debug assertions, no overflow checks).",
     level_note="Trusts libsodium and hashlib's BLAKE2b as two independent implementations of the keyed, salted, personalised BLAKE2b that crypto_kdf is defined as.",
-    runs=lambda tier: [dict(build="st", monitor="c12"), dict(build="st-rel", monitor="c12")],
+    runs=lambda tier: [dict(build="st", monitor="c12"), dict(build="st-rel", monitor="c12")] + _simd("c12")(tier),
     offline=offline.check_c12,
     models=[],
     floors=_c12_floors,
@@ -209,6 +216,10 @@ def _c06_floors(m, tier):
         out.append("not all 14 small-order / non-canonical encodings used as A and as R")
     out += need(m, "S_plus_kL_k", range(1, 15), "malleation multiples k")
     out += need(m, "msg_len_mod128", range(128), "message length residues mod 128")
+    out += need(m, "negative_family", ["small_order_public_key(equation-valid forgery)|prehashed", "small_order_R(S=k*a)|prehashed", "small_order_A_and_R(S=0)", "small_order_A_and_R(S=0)|prehashed"], "pre-hashed forgery families")
+    out += need(m, "from_secret_key_buffer", ["consistent", "zeros", "ff", "seed_repeated", "public_half_one_bit_flipped"], "secret-key buffer variants")
+    if len(m.cov.get("ground_public_key_class", {})) < 4:
+        out.append("seed grinding found only %d of 5 structured public-key classes" % len(m.cov.get("ground_public_key_class", {})))
     return out
 
 
@@ -217,7 +228,7 @@ PROPS["C06"] = dict(
     technique="runtime differential monitoring: libsodium crypto_sign_* bytes and accept/reject decisions online over generated messages and an enumerated negative family (bit flips, S+kL, small-order A/R forgeries, mode cross-overs); RFC 8032 Python signer/verifier offline",
     level_text="Signing through every classic and object entry point is compared byte-for-byte with libsodium for every message length 0..=L, in pure and pre-hashed mode; "
                "verification decisions of every entry point are compared with libsodium on all single-bit mutations (exhaustively on a subset of cases), the full S+kL family, "
-               "equation-valid forgeries built on all 14 small-order / non-canonical encodings as A and as R, and mode cross-overs. The forgeries are equation-valid in the mode they are presented in (pure and pre-hashed challenge), include small-order A together with small-order R and S = 0, and mixed-order keys A + T in both modes. Seeds and messages are sampled.",
+               "equation-valid forgeries built on all 14 small-order / non-canonical encodings as A and as R, and mode cross-overs. Honest key pairs with structured public-key encodings are found by grinding 4 M (quick) / 64 M (thorough) seeds and exercised like the others; key-pair objects are rebuilt from secret-key buffers whose public half is inconsistent with the seed. The forgeries are equation-valid in the mode they are presented in (pure and pre-hashed challenge), include small-order A together with small-order R and S = 0, and mixed-order keys A + T in both modes. Seeds and messages are sampled.",
     level_note="This libsodium build is the default (non ED25519_COMPAT) one; its decision is the specification the property names. The Python RFC 8032 model re-checks a sample.",
     runs=lambda tier: [dict(build="st", monitor="c06")] + _rel("c06")(tier),
     offline=offline.check_c06,
@@ -240,10 +251,10 @@ def _c01_floors(m, tier):
     if len(m.cov.get("poly1305_edge_messages", {})) < 10:
         out.append("crafted Poly1305-edge messages: only %d of 10 (family, residue) cells built" % len(m.cov.get("poly1305_edge_messages", {})))
     ne, no = len(m.cov.get("enc_form", {})), len(m.cov.get("open_form", {}))
-    if ne < 26:
-        out.append("only %d of 26 encryption forms (20 stable + 6 heap/locked) driven" % ne)
-    if no < 28:
-        out.append("only %d of 28 opening forms (22 stable incl. 4 trial-decryption sequences + 6 heap/locked) driven" % no)
+    if ne < 30:
+        out.append("only %d of 30 encryption forms (24 stable + 6 heap/locked) driven" % ne)
+    if no < 30:
+        out.append("only %d of 30 opening forms (24 stable incl. 4 trial-decryption sequences + 6 heap/locked) driven" % no)
     if len(m.cov.get("poly1305_limb_edge_messages", {})) < (8 if tier == "quick" else 16):
         out.append("crafted Poly1305 limb-edge messages: only %d cells built" % len(m.cov.get("poly1305_limb_edge_messages", {})))
     for dim, kv in m.cov.items():
@@ -255,7 +266,7 @@ def _c01_floors(m, tier):
 PROPS["C01"] = dict(
     level="exploration",
     technique="runtime differential monitoring: every encryption/open entry point x container type executed on every message length, ciphertext bytes compared with libsodium, cross-opening in both directions, sealed-box construction re-derived; Python XSalsa20-Poly1305 / X25519 model offline",
-    level_text="26 encryption forms and 28 opening forms (classic easy/detached/in-place/afternm/seal, in-place forms re-tried on the same buffer after a wrong key, and the object API over array, stack, Vec, heap, locked and read-only-locked "
+    level_text="30 encryption forms and 30 opening forms (classic easy/detached/in-place/afternm/seal, in-place forms re-tried on the same buffer after a wrong key, and the object API over array, stack, Vec, heap, locked and read-only-locked "
                "containers) are run on every message length 0..=320 (quick) / 0..=1100 (thorough) plus multi-KiB lengths with seeded keys including all-zero/all-0xff keys and nonces; "
                "each ciphertext must equal libsodium's bytes and each libsodium ciphertext must open. Keys, nonces and contents are sampled; lengths are enumerated.",
     level_note="libsodium is the specification named by the property; sealed boxes are checked by libsodium opening them and by re-deriving nonce = BLAKE2b-24(epk||rpk).",
@@ -281,8 +292,8 @@ def _fault_floors(pid):
         if not any("buffer sized for the genuine message" in k for k in cells):
             out.append("length-changing faults never presented with a caller buffer sized for the genuine message")
         forms = {k.split("|")[0] for k in cells}
-        if len(forms) < 30:
-            out.append("only %d of 30 opening forms (22 AE + 6 heap/locked + 2 stream) reached by faults" % len(forms))
+        if len(forms) < 32:
+            out.append("only %d of 32 opening forms (24 AE + 6 heap/locked + 2 stream) reached by faults" % len(forms))
         return out
     return floors
 
@@ -324,7 +335,7 @@ PROPS["C17"] = dict(
 
 
 def _c03_floors(m, tier):
-    kinds = ["replay", "skip", "swap", "foreign", "wrong_ad", "bit_flip"]
+    kinds = ["replay", "skip", "swap", "foreign", "wrong_ad", "bit_flip", "short_ciphertext", "short_buffer"]
     out = need(m, "wrong_delivery", ["%s|%s" % (k, p) for k in kinds for p in ("before_rekey", "after_rekey")], "wrong-delivery kind x rekey phase")
     out += need(m, "counter_class", ["fresh", "midrange", "0xfffffffe", "0xffffffff"], "counter classes")
     out += need(m, "auto_rekey", ["by_tag", "by_counter_wrap"], "automatic rekey causes")
@@ -455,7 +466,7 @@ PROPS["C13"] = dict(
     level_text="Box seeds of every length 0..=128 (zeros, 0xff, random), kx and signing seeds, secret keys including unclamped/all-ones ones, password-derived key pairs at minimum cost with salts of 8..64 bytes and "
                "Config hash lengths other than 32, and Ed25519-to-X25519 conversion of honest pairs are compared with libsodium; the converted pair must be self-consistent. Seeds are sampled, seed lengths enumerated.",
     level_note="For inputs libsodium's API cannot take (seed length != 32, salt length != 16) the reference is the documented construction computed from libsodium primitives, plus the independent Python model.",
-    runs=lambda tier: [dict(build="st", monitor="c13")] + _rel("c13")(tier),
+    runs=lambda tier: [dict(build="st", monitor="c13")] + _rel("c13")(tier) + _simd("c13")(tier),
     offline=offline.check_c13,
     models=["x25519", "ed25519", "argon2"],
     floors=_c13_floors,
@@ -487,7 +498,7 @@ PROPS["C09"] = dict(
                "non-multiples of 4 KiB and sizes whose segment length is not a multiple of 128, salts of 8..=64 bytes, and seeded random combinations; each output equals libsodium's. "
                "Out-of-range output/salt lengths and costs must be rejected; PwHash::verify must accept the right and reject altered passwords. The parameter space is sampled on a grid, hence exploration.",
     level_note="libsodium's public function refuses Argon2i with t<3 and salts != 16 bytes; those cells use libsodium's internal Argon2 core (same code path its public function calls) and the independent Python model (m<=64 KiB, t<=3).",
-    runs=lambda tier: [dict(build="st", monitor="c09", timeout=(300 if tier == "quick" else 3000))] + _rel("c09")(tier),
+    runs=lambda tier: [dict(build="st", monitor="c09", timeout=(300 if tier == "quick" else 3000))] + _rel("c09")(tier) + _simd("c09")(tier),
     offline=offline.check_c09,
     models=["argon2"],
     floors=_c09_floors,
@@ -515,7 +526,7 @@ PROPS["C10"] = dict(
                "(right and wrong password) and decode-and-recompute; libsodium / harness-built string (both algorithms, salt 8..64 bytes, hash 16..128 bytes) -> dryoc verify, parse, re-encode (must be identical) "
                "and needs_rehash (false exactly when both costs match, for five cost variations per string). A parse-only family (no hashing) covers m and t over the whole u32 range, both algorithms: parse -> re-encode must be the identity and needs_rehash must follow the rule (cross-checked with libsodium's needs_rehash). Sampled inputs, hence exploration.",
     level_note="libsodium's decoder sizes its buffers from strlen, so its verdict is available for non-default salt/hash lengths too; the needs-rehash rule is cross-checked against libsodium on standard strings.",
-    runs=lambda tier: [dict(build="st", monitor="c10")] + _rel("c10")(tier),
+    runs=lambda tier: [dict(build="st", monitor="c10")] + _rel("c10")(tier) + _simd("c10")(tier),
     floors=_c10_floors,
     rule="a case is one password-hash string with its password and origin; distinct by generated index; every case performs hashing",
     assumptions=["costs are kept small (the property quantifies over the accepted range at small cost)"],
